@@ -109,12 +109,18 @@ static std::vector<CycleInfo> walkReports(const Trace& t, const Analysis& A) {
 	return out;
 }
 
+struct ModelAt;
+static void c10impl(const Trace& t, const Analysis& A, Verdict& V, std::vector<ModelAt>* atStep);
+static std::vector<std::pair<bool, std::vector<TaskV>>> planAtSteps(const Trace& t, const Analysis& A);
+
 // ------------------------------------------------------------------------------------------------
 // C08: plan tasks fire in order, only for the succeeded active state, once
 void c08(const Trace& t, const Analysis& A, Verdict& V) {
 	const Info& f = t.info;
 	if (!f.hasPlans || f.bare) return;
 	const std::vector<CycleInfo> ci = walkReports(t, A);
+	// "the plan" is what was appended and not removed since, in order (the vector model of C10), not merely what the library iterates
+	const std::vector<std::pair<bool, std::vector<TaskV>>> model = planAtSteps(t, A);
 	for (size_t wi = 0; wi < A.wins.size(); ++wi) {
 		const Win& w = A.wins[wi];
 		if (!w.complete || w.aborted || A.ann[w.b].dead || w.type != WT_OP) continue;
@@ -154,6 +160,21 @@ void c08(const Trace& t, const Analysis& A, Verdict& V) {
 			// sufficiency
 			if (!p.pre.empty() && p.pre[0].origin == active && c.selfSucceed && (c.atPlanStep.succS & bit(active)) && !c.failCalled && c.atPlanStep.failP == 0) {
 				if (p.fired.empty() || !(p.fired[0] == p.pre[0])) V.add(8, p.postEv, F("first task %u>%u did not fire although s%d is active and reported success in this cycle with no failure outstanding", p.pre[0].origin, p.pre[0].dest, sidOf(active)));
+			}
+			// the same two rules against the plan as the edit history defines it (differs from the iterated plan only if tasks were lost or invented)
+			if (wi < model.size() && model[wi].first && !sameSeq(model[wi].second, p.pre)) {
+				const std::vector<TaskV>& plan = model[wi].second;
+				std::vector<char> used(plan.size(), 0);
+				for (const TaskV& q : p.fired) {
+					size_t k = 0;
+					while (k < plan.size() && (used[k] || !(plan[k] == q))) ++k;
+					if (k == plan.size()) { V.add(8, p.postEv, F("task %u>%u fired but the plan (appended and not removed: %s) holds no such task", q.origin, q.dest, seqStr(plan).c_str())); continue; }
+					used[k] = 1;
+					for (size_t m = 0; m < k; ++m) if (!used[m] && plan[m].origin != q.origin) { V.add(8, p.postEv, F("task %u>%u fired although task %u>%u with a different origin was appended before it and never removed (plan %s, iterated as %s)", q.origin, q.dest, plan[m].origin, plan[m].dest, seqStr(plan).c_str(), seqStr(p.pre).c_str())); break; }
+				}
+				if (!plan.empty() && plan[0].origin == active && c.selfSucceed && (c.atPlanStep.succS & bit(active)) && !c.failCalled && c.atPlanStep.failP == 0) {
+					if (p.fired.empty() || !(p.fired[0] == plan[0])) V.add(8, p.postEv, F("first task %u>%u (plan %s, iterated as %s) did not fire although s%d is active and reported success in this cycle with no failure outstanding", plan[0].origin, plan[0].dest, seqStr(plan).c_str(), seqStr(p.pre).c_str(), sidOf(active)));
+				}
 			}
 		}
 	}
@@ -208,9 +229,11 @@ void c09(const Trace& t, const Analysis& A, Verdict& V) {
 
 // ------------------------------------------------------------------------------------------------
 // C10: plan capacity exact, order preserving, never leaks (model = std::vector)
-void c10(const Trace& t, const Analysis& A, Verdict& V) {
+struct ModelAt { bool known = false; std::vector<TaskV> v; };   // the modelled plan when a cycle's plan step ran
+static void c10impl(const Trace& t, const Analysis& A, Verdict& V, std::vector<ModelAt>* atStep) {
 	const Info& f = t.info;
 	if (!f.hasPlans) return;
+	if (atStep) atStep->assign(A.wins.size(), ModelAt{});
 	struct M { std::vector<TaskV> v; bool known = false, dead = false, outcomePending = false, havePending = false; TaskV pend; } ms[3];
 	auto removeMask = [](std::vector<TaskV>& v, uint8_t mask) { std::vector<TaskV> n; for (size_t k = 0; k < v.size(); ++k) if (!((mask >> (k % 8)) & 1)) n.push_back(v[k]); v.swap(n); };
 	for (uint32_t i = 0; i < t.n; ++i) {
@@ -253,17 +276,37 @@ void c10(const Trace& t, const Analysis& A, Verdict& V) {
 			std::vector<TaskV> rem;   // consumption by firing: what is left must be an in-order remainder
 			if (m.known && !subseqDiff(m.v, obs, rem)) V.add(10, i, F("after the plan step the plan %s is not an in-order remainder of %s", seqStr(obs).c_str(), seqStr(m.v).c_str()));
 			resync = true;
+			if (atStep && m.known) {
+				// model export (C08): keep the edit-history plan and take out exactly the tasks that fired; fall back to the observation only if that is impossible
+				resync = false;
+				for (const TaskV& q : w->plan.fired) {
+					size_t k = 0;
+					while (k < m.v.size() && !(m.v[k] == q)) ++k;
+					if (k == m.v.size()) { resync = true; break; }
+					m.v.erase(m.v.begin() + long(k));
+				}
+			}
 		}
 		if (m.outcomePending && !(e.kind == EV_CB && isOutcome(e.method)) && !(e.kind == EV_NOTE && isOutcome(e.d))) { m.outcomePending = false; m.v.clear(); }   // plan-outcome clearing
 		if (w && (w->type == WT_TEARDOWN || w->type == WT_CONSTRUCT || (w->type == WT_OP && (w->code == OP_LOAD || w->code == OP_EXIT || w->code == OP_ENTER || w->code == OP_RECONSTRUCT)))) resync = true;   // (de)activation / load
 		if (resync) { m.v = obs; m.known = true; }
-		if (!sameSeq(obs, m.v)) { V.add(10, i, F("plan iterates as %s, model (appended and not yet removed, in order) is %s", seqStr(obs).c_str(), seqStr(m.v).c_str())); m.v = obs; }
+		if (atStep && w && w->type == WT_OP && (w->code == OP_UPDATE || w->code == OP_REACT) && w->plan.present && i == w->plan.preEv) { ModelAt& a = (*atStep)[A.ann[i].win]; a.known = m.known; a.v = m.v; }
+		if (!sameSeq(obs, m.v)) { V.add(10, i, F("plan iterates as %s, model (appended and not yet removed, in order) is %s", seqStr(obs).c_str(), seqStr(m.v).c_str())); if (!atStep) m.v = obs; }
 		if (obs.size() > f.cap) V.add(10, i, F("plan holds %zu tasks, capacity is %u", obs.size(), f.cap));
 		if (bool(e.planFlags & PF_BOOL) != !obs.empty()) V.add(10, i, "plan emptiness test disagrees with iteration");
 		if (!(e.planFlags & PF_FIRSTLAST_OK)) V.add(10, i, "first()/last() disagree with the iterated sequence");
 		if (!(e.planFlags & PF_VIEWS_EQUAL)) V.add(10, i, "Plan / const Plan / CPlan iterate different sequences");
 		if (e.planFlags & PF_TRUNC) V.add(10, i, "plan iteration did not terminate within capacity+1 steps");
 	}
+}
+
+void c10(const Trace& t, const Analysis& A, Verdict& V) { c10impl(t, A, V, nullptr); }
+static std::vector<std::pair<bool, std::vector<TaskV>>> planAtSteps(const Trace& t, const Analysis& A) {
+	std::vector<ModelAt> at; Verdict scratch;
+	c10impl(t, A, scratch, &at);
+	std::vector<std::pair<bool, std::vector<TaskV>>> out;
+	for (ModelAt& a : at) out.emplace_back(a.known, std::move(a.v));
+	return out;
 }
 
 // ------------------------------------------------------------------------------------------------
@@ -343,6 +386,7 @@ void c16(const Trace& t, const Analysis& A, Verdict& V) {
 		if (A.ann[i].dead) continue;
 		if (e.kind == EV_END && e.method == OP_LOGGER) { /* state switches at the BEGIN..END bracket */ }
 		if (e.kind == EV_BEGIN && e.method == OP_LOGGER) { attached[in] = e.a != 0; continue; }
+		if (e.kind == EV_ACT && e.method == ACT_LOGGER) { attached[in] = e.a != 0; continue; }   // attached / detached from inside a callback: effective from the next delivery or action on
 		if (e.kind == EV_LOG) {
 			if (!attached[in]) { V.add(16, i, "record emitted although no logger is attached"); continue; }
 			const Ev* prev = i > 0 ? &t.ev[i - 1] : nullptr;
@@ -419,6 +463,7 @@ static bool sameObs(const Trace& t, const Ev& a, const Ev& b, bool withSerial, s
 	if (!(a.prev == b.prev)) { why = F("previousTransition() %s vs %s", trStr(a.prev).c_str(), trStr(b.prev).c_str()); return false; }
 	if (!sameSeq(snap(t, a), snap(t, b))) { why = F("plan %s vs %s", seqStr(snap(t, a)).c_str(), seqStr(snap(t, b)).c_str()); return false; }
 	if (withSerial && (a.hasSerial != b.hasSerial || a.serial != b.serial)) { why = "serialized form"; return false; }
+	if (a.hasLocal && b.hasLocal && a.localSum != b.localSum) { why = "data members of the state objects (read through access<T>())"; return false; }
 	return true;
 }
 void c17(const Trace& t, const Analysis& A, Verdict& V) {
@@ -463,6 +508,7 @@ void c17(const Trace& t, const Analysis& A, Verdict& V) {
 				else if (!(x.req == y.req)) { same = false; why = F("control.request() %s vs %s", trStr(x.req).c_str(), trStr(y.req).c_str()); }
 				else if (!(x.pend == y.pend) || !(x.cur == y.cur)) { same = false; why = "pending/current transition"; }
 				else if (x.ctxOk != y.ctxOk || x.evtOk != y.evtOk || x.thisOk != y.thisOk) { same = false; why = "context/event/this identity"; }
+				else if (x.local != y.local) { same = false; why = F("the state object's own data: its callback counter reads %u in the copy and %u in the original", x.local, y.local); }
 			}
 			if (same && hasSnap(x)) { if (!sameObs(t, x, y, x.kind != EV_CB, why)) same = false; else if (x.planFlags != y.planFlags) { same = false; why = "plan flags"; } }
 			if (same && x.kind == EV_NOTE && x.method == NOTE_AFTER && !(x.req == y.req)) { same = false; why = "request after callback"; }
@@ -513,7 +559,8 @@ uint64_t classify(const Trace& t, const Analysis& A) {
 		if (e.kind == EV_ACT) {
 			if (e.method == ACT_CANCEL) c |= CL_GUARD_CANCEL;
 			if (e.method == ACT_REQUEST && e.c && f.payAlign >= 4) c |= CL_ALIGN4;
-			if (e.method >= ACT_PLAN_APPEND) c |= CL_PLAN_EDIT_IN_CB;
+			if (e.method >= ACT_PLAN_APPEND && e.method <= ACT_PLAN_REMOVE) c |= CL_PLAN_EDIT_IN_CB;
+			if (e.method == ACT_LOGGER) c |= CL_LOGGER_TOGGLE;
 		}
 		if (e.kind == EV_LOG && e.method == LOG_CANCEL) c |= CL_CANCEL_LOG;
 		if (e.kind == EV_BEGIN) {
